@@ -1,6 +1,7 @@
 import HotstuffModel.Proofs.Reachable
 import HotstuffModel.Proofs.NodeInv6
 import HotstuffModel.Proofs.CommitLive
+import HotstuffModel.Proofs.LeaderWindow
 /-!
 # C06 — Liveness with up to f crashed nodes (PARTIAL: enabling lemmas)
 
@@ -123,6 +124,15 @@ theorem consecutive_chain_commits (c : Committee) (name : Nat) (hd : Deploy c na
     (h2 : b0.round + 1 = b1.round) :
     b0.round ≤ ((run c (init c name) es).handleProposal c b).lastCommitted :=
   handleProposal_commits c _ b b1 b0 (reachable_inv4 c name hd rfl es) hl hv hpay hp1 hp0 h2
+
+/-- (L8) Faulty leaders delay progress only boundedly: whatever set of `m < n` authorities is
+crashed or Byzantine, it leads at most `m` rounds in a row — among any `m + 1` consecutive rounds at
+least one is led by an authority outside the set (rotation over the sorted keys is a bijection on
+every window of `n` rounds). -/
+theorem faulty_leaders_lead_at_most_m_rounds_in_a_row (c : Committee) (hw : c.WF) (h : c.keys ≠ [])
+    (faulty : List Nat) (hm : faulty.length < c.keys.length) (r0 : Nat) :
+    ∃ i, i ≤ faulty.length ∧ c.leader (r0 + i) ∉ faulty :=
+  leader_outside_within c hw h faulty hm r0
 
 /-- Non-vacuity / good case on one node: blocks of three consecutive rounds commit the first. -/
 example :
